@@ -181,7 +181,8 @@ NameCapture(src) ==
   \/ (src.tparams # <<>> /\ src.tparams[1] \in {"D", "DE"} /\ "Deserialize" \in D)
   \/ (src.tparams # <<>> /\ src.tparams[1] = "S" /\ "Serialize" \in D)
 
-KnownCandidate(src) == KnownEqualBounds(src) \/ NameCapture(src)
+\* both candidates are repaired (fixes b519546 and 714c9e2): nothing is excused any more
+KnownCandidate(src) == FALSE
 
 VARIABLES si, stage, verdict
 dvars == <<si, stage, verdict>>
@@ -194,7 +195,7 @@ DInit == si \in DOMAIN MCSrcSeq /\ stage = 1 /\ verdict = "running"
 \* one pipeline stage
 RunStage ==
   /\ verdict = "running"
-  /\ LET r == IF stage = 6 /\ NameCapture(SRC) THEN "rustc:names" ELSE OpStages(SRC)[stage] IN
+  /\ LET r == OpStages(SRC)[stage] IN
      IF r # "" THEN verdict' = r /\ stage' = stage
      ELSE IF stage = 6 THEN verdict' = "accepted" /\ stage' = stage
      ELSE verdict' = verdict /\ stage' = stage + 1
@@ -225,11 +226,12 @@ GeneratedTestsCatch ==
      \/ (MustFailATest(SRC) <=> \E t \in OpTests(SRC) : t[2] = "FAILED")
 
 \* the candidates are real disagreements (the lists are exact, not excuses)
+\* equal literal bounds with one exclusive side are now refused
 CandidatesAreDisagreements ==
-  (DDone /\ KnownEqualBounds(SRC) /\ ~Repeated(SRC) /\ ~BothLowerOrUpper(OpVal(SRC)) /\ ~DupVal(OpVal(SRC))) => (Class(SRC) = "reject" /\ Accepted)
+  (DDone /\ KnownEqualBounds(SRC) /\ ~Repeated(SRC)) => ~Accepted
 
 EmitSrc == (stage = 1 /\ verdict = "running") =>
   PrintT(<<"DECL", si, ToJson([src |-> SRC, class |-> Class(SRC), op |-> OpVerdict(SRC),
-                                 capture |-> NameCapture(SRC), faithful |-> Faithful(SRC), g |-> IsG(SRC),
+                                 capture |-> FALSE, faithful |-> Faithful(SRC), g |-> IsG(SRC),
                                  mustfail |-> MustFailATest(SRC)])>>)
 =============================================================================
